@@ -1,5 +1,8 @@
 pub mod core;
 pub mod pay;
+pub mod sched;
+pub mod rtrnet;
+pub mod clibin;
 pub mod c01;
 pub mod c02;
 pub mod c03;
